@@ -43,8 +43,10 @@ def real_pio():
         if src not in sys.path:
             sys.path.insert(0, src)
         import importlib
-        for k in [k for k in sys.modules if k == "Reduino" or k.startswith("Reduino.")]:
-            del sys.modules[k]
+        cur = sys.modules.get("Reduino")
+        if cur is not None and not (getattr(cur, "__file__", "") or "").startswith(src):
+            for k in [k for k in sys.modules if k == "Reduino" or k.startswith("Reduino.")]:
+                del sys.modules[k]
         _REAL["m"] = importlib.import_module("Reduino.toolchain.pio")
     return _REAL["m"]
 
@@ -130,10 +132,20 @@ INI_TEXT = ("'[env:' + env_name(board) + ']\\nplatform = ' + platform + '\\nboar
             "'\\nframework = arduino\\nupload_port = ' + port + '\\n\\n' + LIBSEC + '\\n'")
 
 
-def build():
-    reg = Registry()
+MKDIR, WRITE = 5, 6
+
+
+def shared_pio(reg):
+    """Ghosts shared by C13 and C12: file map, directory set, effect trace E (event codes)."""
     reg.ghost("files", "map:str")      # path -> text written
     reg.ghost("dirs", "map:bool")      # directories created
+    reg.ghost("E", "seq:int")          # effect trace: 1 pio --version, 2 pio run, 3 pio run -t upload, 4 mkdtemp,
+    #                                    5 mkdir, 6 write_text, 7 read_text
+
+
+def build():
+    reg = Registry()
+    shared_pio(reg)
     reg.unit("validate_platform_board", PIO, params={"platform": "str", "board": "str"},
              raises={"ValueError": "not registered(platform, board)"})
     reg.unit("_format_lib_section", PIO, params={"libraries": "list[str]|none"}, returns="str",
@@ -145,16 +157,19 @@ def build():
              note="ASSUMED: re.sub(r'[^A-Za-z0-9_]+', '_', board) is an uninterpreted function of board")
     reg.unit("_sanitize_env_name", PIO, params={"board": "str"}, returns="str", ensures=["result == env_name(board)"])
     reg.unit("Path.mkdir", X, extern=True, public=False, params={"parents": "bool", "exist_ok": "bool"},
-             modifies=["ghost.dirs"], ensures=["is_store(dirs, old(dirs), self, True)"], returns="none")
+             modifies=["ghost.dirs", "ghost.E"],
+             ensures=["is_store(dirs, old(dirs), self, True)", "E == old(E) + [5]"], returns="none")
     reg.unit("Path.write_text", X, extern=True, public=False, params={"data": "str", "encoding": "str"},
-             modifies=["ghost.files"], ensures=["is_store(files, old(files), self, data)"], returns="int")
+             modifies=["ghost.files", "ghost.E"],
+             ensures=["is_store(files, old(files), self, data)", "E == old(E) + [6]"], returns="int")
     libsec = "ite(is_none(lib_deps), '', LIBS)"
     reg.unit("write_project", PIO,
              params={"project_dir": "path", "cpp_code": "str", "port": "str", "platform": "str", "board": "str",
                      "lib_deps": "list[str]|none"},
              raises={"ValueError": "not registered(platform, board)"},
-             modifies=["ghost.files", "ghost.dirs"],
-             ensures=["is_store(dirs, old(dirs), project_dir / 'src', True)",
+             modifies=["ghost.files", "ghost.dirs", "ghost.E"],
+             ensures=["E == old(E) + [5, 6, 6]",
+                      "is_store(dirs, old(dirs), project_dir / 'src', True)",
                       "has(files, project_dir / 'src' / 'main.cpp') and at(files, project_dir / 'src' / 'main.cpp') == cpp_code",
                       "has(files, project_dir / 'platformio.ini')",
                       # whole-view: nothing but the two files was written
